@@ -25,9 +25,12 @@ type G struct {
 func New(seed int64) *G {
 	return &G{
 		R:     rand.New(rand.NewSource(seed)),
-		Elems: []string{"a", "b", "c"},
-		Attrs: []string{"a", "b", "id"},
-		Texts: []string{"1", "2", "10", "0.5", "x", "ab", " 1 ", "-3", "t"},
+		// names sharing a prefix, names with '-' and digits; values that are long, repetitive, contain a tab, or are numbers
+		// outside the exact model (skipped by the validators when used numerically)
+		Elems: []string{"a", "b", "c", "ab", "a-1"},
+		Attrs: []string{"a", "b", "id", "ab"},
+		Texts: []string{"1", "2", "10", "0.5", "x", "ab", " 1 ", "-3", "t", "abababab", "aaaa", "a\tb", "0.1",
+			"the quick brown fox jumps over the lazy dog 0123456789"},
 	}
 }
 
